@@ -170,6 +170,12 @@ func c11Graphsync(r *rand.Rand) *metadata.GraphsyncFilecoinV1 {
 	case 0:
 		mh, _ = multihash.Sum(d, multihash.SHA2_256, -1)
 	case 1:
+		// (inline content of any size: the CID, and with it the CBOR byte string holding it, crosses the sizes at
+		// which CBOR length prefixes grow)
+		if r.Intn(3) == 0 {
+			d = make([]byte, []int{14, 240, 500}[r.Intn(3)]+r.Intn(24))
+			r.Read(d)
+		}
 		mh, _ = multihash.Sum(d, multihash.IDENTITY, -1)
 	default:
 		mh, _ = multihash.Sum(d, multihash.SHA2_512, -1)
